@@ -154,6 +154,7 @@ typedef struct {
   int dst_mode;        // 0 ample, 1 growing window, 2 fresh windows
   uint32_t dst_cap, dst_step;
   uint8_t dst_fill;
+  uint8_t dst_flush_on_read; // fresh-window mode: also start a fresh window after a $short read
   wuffs_base__io_buffer dst;
   uint8_t* dstmem;
   size_t dstlimit;
@@ -508,10 +509,12 @@ static void work_setup(uint64_t wmin, uint64_t wmax) {
     case 1: n = wmax; if (n > (1u << 26)) n = wmin > (1u << 26) ? wmin : (1u << 26); break;
     case 2: n = wmin ? wmin - 1 : 0; break;
     case 3: n = 0; break;
+    case 4: if (n < (16u << 20) + 273) n = (16u << 20) + 273; break; // ample: sized in advance like upstream's drivers
   }
   if (n > (1ull << 30)) n = 1ull << 30;
   S.workmem = (uint8_t*)malloc(n ? n : 1);
-  fill_mem(S.workmem, (size_t)n, S.work_fill);
+  if (n > (1u << 20)) { memset(S.workmem, 0x5A, (size_t)n); fill_mem(S.workmem, 1u << 16, S.work_fill); }
+  else fill_mem(S.workmem, (size_t)n, S.work_fill);
   S.work.ptr = (S.work_mode == 3) ? NULL : S.workmem;
   S.work.len = (size_t)n;
 }
@@ -612,14 +615,24 @@ static void drive_iot(uint32_t maxcalls) {
       if (scl0) { violation("$short read returned although the source was closed (everything supplied)"); final = st.repr; break; }
       if (src_exhausted() && !S.src_close) { final = st.repr; break; } // nothing more to give, never closing: legitimately stuck
       src_supply(src_next_size());
+      if (S.dst_flush_on_read && S.dst_mode == 2 && S.dst.meta.wi > 0) dst_more();
       continue;
     }
     if (st.repr == wuffs_base__suspension__short_write) {
       S.nsusp_w++;
       if (dwi0 == dri0 && S.dst.meta.wi == dwi0 && (S.dst.data.len - dwi0) >= 65536 && dwi0 == 0)
         violation("$short write with no byte written into an empty destination of %zu bytes", S.dst.data.len);
+      if (!progressed) {
+        // A decoder may need a minimum of contiguous destination space (std/lzma
+        // wants 274 bytes before it copies a match), so a window that produced
+        // no progress is answered with a larger one, up to the "ample" size above.
+        if (++stuck > 40) { final = st.repr; gaveup = 1; break; }
+        if (S.dst_step < (1u << 17)) S.dst_step = S.dst_step ? S.dst_step * 2 : 2;
+      } else {
+        stuck = 0;
+        g_nwindows++;
+      }
       if (!dst_more()) { final = st.repr; break; }
-      g_nwindows++;
       continue;
     }
     if (wuffs_base__status__is_suspension(&st)) {
@@ -1132,7 +1145,7 @@ static void handle_request(void) {
         S.src_listpos = 0;
         break;
       }
-      case 'D': S.dst_mode = rq_u8(); S.dst_cap = rq_u32(); S.dst_step = rq_u32(); S.dst_fill = rq_u8(); break;
+      case 'D': S.dst_mode = rq_u8(); S.dst_cap = rq_u32(); S.dst_step = rq_u32(); S.dst_fill = rq_u8(); S.dst_flush_on_read = rq_u8(); break;
       case 'B': S.work_mode = rq_u8(); S.work_fill = rq_u8(); break;
       case 'X': S.pixfmt = rq_u32(); S.pixblend = rq_u8(); S.pixfill = rq_u8(); S.max_pixels = rq_u32(); S.dump_pixels = rq_u8(); break;
       case 'T': S.tok_cap = rq_u32(); break;
@@ -1174,6 +1187,16 @@ static void handle_request(void) {
         break;
       }
       case 'C': op_call(); break;
+      case 'N': { // switch to a new payload (re-initialisation histories): resets source, output and counters
+        uint32_t n = rq_u32();
+        if (g_reqpos + n > g_reqlen) { g_reqbad = 1; break; }
+        S.pay = g_req + g_reqpos; S.paylen = n; g_reqpos += n;
+        S.fed = 0; S.src_listpos = 0; g_zeros = 0;
+        free(S.srcmem); S.srcmem = NULL; memset(&S.src, 0, sizeof S.src);
+        S.outlen = 0; S.ncalls = 0; S.nsusp_r = S.nsusp_w = S.nsusp_other = 0; g_nwindows = 0;
+        rec_begin('X'); rec_end();
+        break;
+      }
       case 'O': { // dump accumulated output
         dst_flush();
         rec_begin('O'); resp_u64(fnv(S.out, S.outlen)); resp_u32((uint32_t)S.outlen); resp_bytes(S.out, S.outlen); rec_end();
